@@ -62,6 +62,10 @@ func (r *renderer) render(v goja.Value, d int, full bool) string {
 	if goja.IsNull(v) {
 		return "null"
 	}
+	if obj, ok := v.(*goja.Object); ok {
+		// never Export() an object: that would read (and thereby invoke) its accessor properties
+		return r.renderObject(obj, d, full)
+	}
 	switch x := v.Export().(type) {
 	case bool:
 		if x {
@@ -76,14 +80,12 @@ func (r *renderer) render(v goja.Value, d int, full bool) string {
 		}
 		return "<num:" + v.String() + ">"
 	case string:
-		if _, ok := v.(*goja.Object); !ok {
-			return "\"" + x + "\""
-		}
+		return "\"" + x + "\""
 	}
-	obj, ok := v.(*goja.Object)
-	if !ok {
-		return "<" + v.ExportType().String() + ">"
-	}
+	return "<" + v.ExportType().String() + ">"
+}
+
+func (r *renderer) renderObject(obj *goja.Object, d int, full bool) string {
 	if _, ok := goja.AssertFunction(obj); ok {
 		return "<function>"
 	}
@@ -136,9 +138,6 @@ func (r *renderer) renderProp(obj *goja.Object, k string, d int, full bool, show
 	dobj := desc.ToObject(r.rt)
 	g, s := dobj.Get("get"), dobj.Get("set")
 	if (g != nil && !goja.IsUndefined(g)) || (s != nil && !goja.IsUndefined(s)) {
-		return "<accessor>"
-	}
-	if _, isAcc := dobj.Export().(map[string]interface{})["get"]; isAcc {
 		return "<accessor>"
 	}
 	return r.render(dobj.Get("value"), d, full)
